@@ -5,7 +5,7 @@ import zonegen as zg
 
 def gen(rng, tier):
     quick = tier == "quick"
-    n = 3000 if quick else 100000
+    n = 4000 if quick else 60000
     for _ in range(n):
         apex, cls, recs = zg.gen_zone(rng, max_records=rng.choice([6, 12, 25, 40]))
         # more rejects than the lookup zones: out-of-zone owners, class and TTL mismatches, duplicates
@@ -96,7 +96,7 @@ MANIFEST = {
                    "(owner in zone, class, TTL of the existing RRset) and a rejected add returns the identical tree; "
                    "iter_by_node yields every existing name (empty non-terminals included) exactly once with its RRsets, "
                    "iter_by_rrset exactly the de-duplicated RRsets of the accepted records once each, and soa()/ns() agree "
-                   "with the apex item. Model tied to the code by a differential run over 3000 add histories with the full "
+                   "with the apex item. Model tied to the code by a differential run over 4000 add histories with the full "
                    "iteration after every step."),
     "level_note": ("Trusted: Coq kernel, extraction, the hand-written model's correspondence to the Rust code (differentially "
                    "tested), Rdata::equals abstract and transitive."),
